@@ -64,6 +64,8 @@ class SpartanProtocol(BaseGopherProtocol):
             self.handler.write(self.wfile)
 
     def write_status(self, code: int, meta: str) -> None:
+        # The status line is a single line: never let request data split it
+        meta = re.sub(r"[\r\n]+", " ", meta)
         self.wfile.write(f"{code} {meta}\r\n".encode(errors="backslashreplace"))
 
     def adjust_mimetype(self, mimetype: typing.Optional[str]) -> str:
